@@ -445,6 +445,8 @@ def run(cx, out):
     from . import shared
     # premise: the marker is enforced by the type system, also through the representation types of compact / encoded_as
     # fields of derived types (C17 W17.3 compile-fail witnesses with compiling twins)
-    shared.premises(cx, out, {'c08': {'R08.1'}, 'c17': {'W17.3'}})
+    # ... and the in-place entry point of a derived decoder decodes what `decode` decodes (C05 R05.5: it exists only for
+    # attribute-free transparent structs), so the hooks seen through Box / Rc / Arc / arrays are those of `decode`
+    shared.premises(cx, out, {'c08': {'R08.1'}, 'c17': {'W17.3'}, 'c05': {'R05.5'}})
     from . import positive
     positive.check(cx, out, 'C12')
